@@ -101,17 +101,17 @@ Proof.
     repeat split; symmetry; assumption.
 Qed.
 
-Theorem check_trav_sound : forall l c tag pos diag r,
-  check_trav l = Some (verdict c tag pos diag, r) -> c = 0 \/ c = 1 -> c = 0 /\ r = [] /\ trav_case_ok l.
+Theorem check_trav_sound : forall l c v r,
+  check_trav l = Some (c :: v, r) -> c = 0 \/ c = 1 -> c = 0 /\ r = [] /\ trav_case_ok l.
 Proof.
-  intros l c tag pos diag r H Hc. unfold check_trav in H. pinv H. subst.
+  intros l c v r H Hc. unfold check_trav in H. pinv H. subst.
   destruct (g_wfb a) eqn:Ewf; cbn [negb orb] in Ev; [|rejected Ev]. apply g_wfb_spec in Ewf.
   destruct (length a0 =? 0)%nat eqn:EL; [rejected Ev|]. apply Nat.eqb_neq in EL.
   cbv zeta in Ev.
   destruct (trav_all (gm_out (gm_build a)) (g_n a) (S (length a)) a0 0 0) as [bits [[idx k]|]] eqn:ET; [rejected Ev|].
   destruct ((a1 =? 1) && graph_eqb a a2) eqn:EP; [|rejected Ev].
   apply andb_prop in EP. destruct EP as [EP1 EP2]. apply Z.eqb_eq in EP1. geq. subst.
-  pose proof (verdict_code _ _ _ _ _ _ _ _ Ev) as C. unfold V_OK in C. subst c.
+  pose proof (verdict_code _ _ _ _ _ _ Ev) as C. unfold V_OK in C. subst c.
   split; [reflexivity|]. split; [reflexivity|]. exists a, a0. split; [|split; [exact Ewf|split]].
   - apply (plist_any_layout _ _ p_trav_layout) in E0. lay. subst. rewrite ?app_nil_r. reflexivity.
   - intros ->. apply EL. reflexivity.
